@@ -240,8 +240,11 @@ def _worker(prop, tier, verif_seed, wid, nworkers, budget_s, max_runs, known_sig
             smp = dict(res.sample)
             smp["run_index"] = i
             st["samples"].append(smp)
+        only = os.environ.get("VERIF_ONLY_SIG")
         for v in res.violations:
             sig = v.sig(prop)
+            if only and only not in sig:
+                continue  # debugging aid: look for one signature only
             if sig in known_sigs:
                 st["known_hits"][sig] = st["known_hits"].get(sig, 0) + 1
                 continue
